@@ -675,12 +675,51 @@ def judge_shared_item(ctx, case):
     ctx.case(['shared_item', case], True)
 
 
+def judge_shared_attr(ctx, case):
+    """The attribute's own node may be the value of another attribute too
+    (one dict object referenced twice when dumping): whatever a transform
+    does to the named attribute, the other one must look the same
+    afterwards."""
+    top, attr, ka, va = case['top'], case['attr'], case['ka'], case['va']
+    for name in TRANSFORMS:
+        node = yatiml.Node(N.mk(top))
+        if not node.has_attribute(attr):
+            return
+        shared = node.get_attribute(attr).yaml_node
+        node.set_attribute('elsewhere', shared)
+        before = N.view(shared)
+        try:
+            if name == 'seq_to_map':
+                node.seq_attribute_to_map(attr, ka, va, case['strict'])
+            elif name == 'map_to_seq':
+                node.map_attribute_to_seq(attr, ka, va)
+            elif name == 'index_to_map':
+                node.index_attribute_to_map(attr, ka, va)
+            else:
+                node.map_attribute_to_index(attr, ka, va)
+        except yatiml.SeasoningError:
+            pass
+        except Exception:
+            continue
+        ctx.count('shared_attr_cases')
+        after = N.view(node.get_attribute('elsewhere').yaml_node)
+        if after != before:
+            ctx.violation(
+                'C15 %s attribute-node-referenced-elsewhere-modified' % name,
+                '%s(%r) changed another attribute that holds the same node: '
+                '%r -> %r' % (name, attr, before, after),
+                dict(case, transform='shared_attr'))
+            return
+    ctx.case(['shared_attr', case], True)
+
+
 def run_case(ctx, case):
     for name in TRANSFORMS:
         judge_single(ctx, case, name)
     judge_inverse(ctx, case)
     judge_isolation(ctx, case)
     judge_shared_item(ctx, case)
+    judge_shared_attr(ctx, case)
 
 
 def shard(ctx):
@@ -705,6 +744,10 @@ def replay(ctx, case):
         judge_dash(ctx, case['keys'])
         return
     t = case.get('transform')
+    if t == 'shared_attr':
+        judge_shared_attr(ctx, {k: v for k, v in case.items()
+                                if k != 'transform'})
+        return
     if t == 'shared_item':
         judge_shared_item(ctx, {k: v for k, v in case.items()
                                 if k != 'transform'})
